@@ -195,6 +195,24 @@ class Driver:
     def __init__(self):
         self.calls = 0
         self.lines = 0
+        self.private = None
+
+    def snapshot(self):
+        """Copy the freshly built binary to a private file (under the build lock), so that a concurrent
+        `lake build driver` of another check cannot pull it away in the middle of a run."""
+        import atexit
+        import shutil
+        import tempfile
+        if not DRIVER.exists():
+            return
+        with LakeLock():
+            fd, path = tempfile.mkstemp(prefix="verif_driver_")
+            os.close(fd)
+            shutil.copy2(DRIVER, path)
+        os.chmod(path, 0o755)
+        self.private = path
+        pid = os.getpid()
+        atexit.register(lambda: os.path.exists(path) and os.getpid() == pid and os.unlink(path))
 
     def run(self, lines, timeout=1800):
         if not lines:
@@ -203,7 +221,9 @@ class Driver:
             if "\n" in ln:
                 raise ValueError("op line contains newline")
         data = "\n".join(lines) + "\n"
-        p = subprocess.run([str(DRIVER)], input=data, capture_output=True, text=True, timeout=timeout)
+        if self.private is None:
+            self.snapshot()
+        p = subprocess.run([self.private or str(DRIVER)], input=data, capture_output=True, text=True, timeout=timeout)
         if p.returncode != 0:
             raise RuntimeError(f"driver failed rc={p.returncode}: {p.stderr[:500]}")
         out = p.stdout.split("\n")
@@ -293,7 +313,9 @@ class Ctx:
             self.prove_ok = False
             self.violation("audit:forbidden-token", "audit", None, {"hits": hits[:20]},
                            "no sorry/admit/axiom/native_decide/bv_decide/implemented_by/unsafe in the Lean development", False)
-        targets = ["driver", *mods] if self.dev else ["driver", "StraxModel"]
+        # a property's verdict depends on the driver and on its own Props modules (with their imports) only;
+        # the whole library is built by MANIFEST.setup_cmd
+        targets = ["driver", *mods]
         ok, out = lake_build(targets)
         self.prove_log = out[-4000:]
         if not ok:
